@@ -69,6 +69,7 @@ def dispatch (op : String) (args : List SExp) : Option OpResult :=
   | "dav.op" => opDavOp args
   | "dav.fail" => opDavFail args
   | "pf.prin" => opPfPrin args
+  | "pf.discover" => opPfDiscover args
   | "obj.cals" => opObjCals args
   | "obj.books" => opObjBooks args
   | "obj.calobjs" => opObjObjs "calendar-object" "calendar-data" true args
